@@ -99,8 +99,12 @@ def run_check(pid: str, tier: str, seed: int, jobs: int | None = None) -> int:
         try:
             p.wait(timeout=max(1.0, deadline - time.time()))
         except subprocess.TimeoutExpired:
-            p.kill()
-            p.wait()
+            p.terminate()            # SIGTERM: the worker writes the summary of what it observed so far, then exits
+            try:
+                p.wait(timeout=20)
+            except subprocess.TimeoutExpired:
+                p.kill()
+                p.wait()
             crashed.append((k, "coordinator watchdog"))
         log.close()
         if p.returncode not in (0, None) and (k, "coordinator watchdog") not in crashed:
